@@ -1608,7 +1608,10 @@ mod expression_parser {
     expressions.truncate(MAX_STRUCT_SIZE);
     let (end_loc, end_comments) = parser.assert_and_consume_operator(TokenOp::RightParenthesis);
     let loc = start_loc.union(&end_loc);
-    debug_assert!(expressions.len() > 1);
+    if expressions.len() == 1 {
+      // `(a,)` is a parenthesized expression with a trailing comma, not a tuple of one element.
+      return expressions.pop().unwrap();
+    }
     expr::E::Tuple(
       expr::ExpressionCommon { loc, associated_comments: NO_COMMENT_REFERENCE, type_: () },
       expr::ParenthesizedExpressionList {
